@@ -92,6 +92,7 @@ type Listener struct {
 	queue  []*Conn
 	closed bool
 	wake   chan struct{}
+	group  string // process instance that listens (simrt task group)
 }
 
 func (n *Net) Listen(node, port string) (*Listener, error) {
@@ -101,13 +102,13 @@ func (n *Net) Listen(node, port string) (*Listener, error) {
 	if l := n.listeners[key]; l != nil && !l.closed {
 		return nil, &net.OpError{Op: "listen", Net: "tcp", Err: syscall.EADDRINUSE}
 	}
-	l := &Listener{net: n, node: node, port: port, wake: make(chan struct{}, 1)}
+	l := &Listener{net: n, node: node, port: port, wake: make(chan struct{}, 1), group: simrt.CurrentGroup()}
 	n.listeners[key] = l
 	return l, nil
 }
 
 func (l *Listener) Accept() (net.Conn, error) {
-	simrt.Adopt(l.node + ":lis" + l.port)
+	simrt.AdoptIn(l.node+":lis"+l.port, l.group)
 	for {
 		l.mu.Lock()
 		if l.closed {
@@ -208,6 +209,7 @@ func (n *Net) Dial(ctx context.Context, from, address string) (net.Conn, error) 
 	cl := &Conn{net: n, id: id, side: "c", node: from, peerNode: to, rwake: make(chan struct{}, 1), wwake: make(chan struct{}, 1)}
 	sv := &Conn{net: n, id: id, side: "s", node: to, peerNode: from, rwake: make(chan struct{}, 1), wwake: make(chan struct{}, 1)}
 	cl.peer, sv.peer = sv, cl
+	cl.group = simrt.CurrentGroup()
 	cl.local, cl.remote = addr{from + ":0"}, addr{address}
 	sv.local, sv.remote = addr{to + ":" + port}, addr{from + ":0"}
 	if n.Latency != nil {
@@ -228,6 +230,7 @@ func (n *Net) Dial(ctx context.Context, from, address string) (net.Conn, error) 
 			res <- dialResult{nil, ErrRefused}
 			return
 		}
+		sv.group = l.group
 		l.queue = append(l.queue, sv)
 		l.mu.Unlock()
 		n.mu.Lock()
@@ -296,6 +299,7 @@ type Conn struct {
 	peer     *Conn
 	local    net.Addr
 	remote   net.Addr
+	group    string // process instance owning this endpoint (simrt task group)
 
 	mu      sync.Mutex
 	rbuf    []byte
@@ -343,7 +347,7 @@ func (c *Conn) signal() {
 }
 
 func (c *Conn) Read(p []byte) (int, error) {
-	simrt.Adopt(c.label())
+	simrt.AdoptIn(c.label(), c.group)
 	c.mu.Lock()
 	c.NRead++
 	if c.FailReadAt != 0 && c.NRead == c.FailReadAt && c.broken == nil {
@@ -434,7 +438,7 @@ func (c *Conn) Read(p []byte) (int, error) {
 }
 
 func (c *Conn) Write(p []byte) (int, error) {
-	simrt.Adopt(c.label())
+	simrt.AdoptIn(c.label(), c.group)
 	c.mu.Lock()
 	c.NWrite++
 	if c.FailWriteAt != 0 && c.NWrite == c.FailWriteAt && c.broken == nil {
@@ -708,6 +712,41 @@ func (c *Conn) SetStall(on bool) {
 	if on {
 		c.net.S.Logf("fault stall %s", c.Name())
 	}
+}
+
+// Group returns the process instance that owns this endpoint.
+func (c *Conn) Group() string { return c.group }
+
+// CrashGroup models the death of process instance g at the network level: its
+// listeners disappear; with rst its connections are reset (the operating
+// system closes the sockets of a killed process), without it the machine just
+// goes silent (power loss): whatever the peers send is lost and nothing comes
+// back. The tasks themselves are stopped with simrt.Sched.Freeze.
+func (n *Net) CrashGroup(g string, rst bool) {
+	n.mu.Lock()
+	var ls []*Listener
+	for _, l := range n.listeners {
+		if l.group == g {
+			ls = append(ls, l)
+		}
+	}
+	cs := append([]*Conn(nil), n.conns...)
+	n.mu.Unlock()
+	for _, l := range ls {
+		l.Close()
+	}
+	for _, c := range cs {
+		if c.group != g {
+			continue
+		}
+		if rst {
+			c.Cut()
+		} else {
+			c.peer.SetBlackhole(true)
+		}
+	}
+	n.S.Fault("crash")
+	n.S.Logf("fault crash group %s rst=%v", g, rst)
 }
 
 // CloseListeners closes every listener of a node (crash).
